@@ -82,9 +82,10 @@ Record inst := mkInst {
   alive : bool;                (* an OS command of this instance exists *)
   exited : option Z;           (* exit code not yet collected by Wait() *)
   outp : bool;                 (* a matching ready line was written and not yet seen *)
+  d_added : bool;              (* addDoneProcess(this instance) happened *)
   launches : nat }.
 #[export] Instance eta_inst : Settable _ :=
-  settable! mkInst <nm; cf; pc; l_done; l_started; l_runctx; l_ready; l_logready; f_stopped; alive; exited; outp; launches>.
+  settable! mkInst <nm; cf; pc; l_done; l_started; l_runctx; l_ready; l_logready; f_stopped; alive; exited; outp; d_added; launches>.
 
 Inductive apiop := OpRun | OpStart (n : name) | OpStop (n : name) | OpRestart (n : name) | OpShutdown.
 
@@ -118,11 +119,20 @@ Inductive sdpc :=
 Inductive release := RStarted (i : iid) | REndEarly (i : iid) | RRunCtx (i : iid) | RWgDone | RUnlock
                    | RCodeOnce (c : Z).   (* exitCodeOnce.Do directly follows the exit_trigger TP *)
 
+(* progress of getDoneOrRunningProcess(k) in a thread: done registry, (miss) running registry, (miss) done
+   registry again; each lookup is logged inside its critical section *)
+Inductive lookup_st :=
+| LNone
+| LDone1 (k : name) (r : option iid)
+| LMid (k : name)
+| LReg (k : name) (r : option iid)
+| LDone2 (k : name) (r : option iid).
+
 Record thread := mkThread { apc : apipc; spc : stoppc; dpc : sdpc; pend : option release;
                             last_reg : option (name * option iid);    (* last getRunningProcess result *)
-                            last_done : option (name * option iid) }. (* last getDoneProcess result *)
-#[export] Instance eta_thread : Settable _ := settable! mkThread <apc; spc; dpc; pend; last_reg; last_done>.
-Definition thread0 := mkThread ANone SIdle DNone None None None.
+                            lk : lookup_st }.
+#[export] Instance eta_thread : Settable _ := settable! mkThread <apc; spc; dpc; pend; last_reg; lk>.
+Definition thread0 := mkThread ANone SIdle DNone None None LNone.
 
 Record sys := mkSys {
   confs : amap pconf;
@@ -245,16 +255,11 @@ Definition name_opt_eqb (a b : option (name * option iid)) : bool :=
    done registry; if that missed: running registry; if that missed too: done registry again (the last
    done lookup is the one recorded) *)
 Definition thread_lookup (t : thread) (k : name) : option (option iid) :=
-  match last_done t with
-  | Some (k1, Some j) => if N.eqb k1 k then Some (Some j) else None
-  | Some (k1, None) =>
-      if N.eqb k1 k then
-        match last_reg t with
-        | Some (k2, r) => if N.eqb k2 k then Some r else None
-        | None => None
-        end
-      else None
-  | None => None
+  match lk t with
+  | LDone1 k1 (Some j) => if N.eqb k1 k then Some (Some j) else None
+  | LReg k1 (Some j) => if N.eqb k1 k then Some (Some j) else None
+  | LDone2 k1 r => if N.eqb k1 k then Some r else None
+  | _ => None
   end.
 Definition thread_reg (t : thread) (k : name) : option (option iid) :=
   match last_reg t with Some (k2, r) => if N.eqb k2 k then Some r else None | None => None end.
@@ -322,7 +327,7 @@ Definition own_inst (s : sys) (th : tid) : option (iid * inst) :=
 Definition set_pc (i : iid) (p : ipc) (s : sys) : sys := upd_inst i (fun x => x <| pc := p |>) s.
 
 Definition new_inst (n : name) (c : pconf) : inst :=
-  mkInst n c (IDeps (map fst (deps c))) false false false false None false false None false 0.
+  mkInst n c (IDeps (map fst (deps c))) false false false false None false false None false false 0.
 
 Definition all_done (s : sys) (l : list iid) : bool :=
   forallb (fun i => match get i (insts s) with Some x => l_done x | None => false end) l.
@@ -366,16 +371,23 @@ Definition step_reg (s : sys) (th : tid) (e : event) : option sys :=
   | ERegDel i =>
       do x <- get i (insts s);
       check lock_free s && opt_eqb N.eqb (get (nm x) (running s)) (Some i);
+      check opt_eqb N.eqb (get th (thinst s)) (Some i) && (match pc x with IWgDone => true | _ => false end);
       Some (s <| running := del (nm x) (running s) |>)
   | ERegGet n found =>
       check lock_free s && opt_eqb N.eqb found (get n (running s));
-      Some (set_thread th (t <| last_reg := Some (n, found) |>) s)
+      Some (set_thread th (t <| last_reg := Some (n, found) |>
+                             <| lk := match lk t with LMid k => if N.eqb k n then LReg n found else LNone | _ => LNone end |>) s)
   | EDoneAdd i =>
       do x <- get i (insts s);
-      Some (s <| donereg := set (nm x) i (donereg s) |>)
+      check opt_eqb N.eqb (get th (thinst s)) (Some i);
+      check (match pc x with IDoneReg _ | IProjEnd _ true => true | _ => false end);
+      Some (upd_inst i (fun x => x <| d_added := true |>) (s <| donereg := set (nm x) i (donereg s) |>))
   | EDoneGet n found =>
       check opt_eqb N.eqb found (get n (donereg s));
-      Some (set_thread th (t <| last_done := Some (n, found) |>) s)
+      Some (set_thread th (t <| lk := match lk t with
+                                      | LReg k None => if N.eqb k n then LDone2 n found else LDone1 n found
+                                      | _ => LDone1 n found
+                                      end |>) s)
   | _ => None
   end.
 
@@ -532,7 +544,8 @@ Definition step_own (s : sys) (th : tid) (e : event) : option sys :=
       Some (set_pc i (if ok then IDeps todo else ISkipDecided) s)
   | ESkip, ISkipDecided => Some (set_pc i (IEnding SSkipped 1) s)
   | ERunChecked term, IDeps [] =>
-      check Bool.eqb term (status_eqb (st (vis_of s n)) STerminating);
+      (* the instance was stopped while pending (its run context is cancelled), or the shared status says Terminating *)
+      check Bool.eqb term (l_runctx x || status_eqb (st (vis_of s n)) STerminating);
       Some (set_pc i (if term then IRunRet (Some 0%Z)
                       else if bad_dir (cf x) then IEnding SError 1 else IPreStart) s)
   | EStarted, IPreStart =>
@@ -550,7 +563,8 @@ Definition step_own (s : sys) (th : tid) (e : event) : option sys :=
       Some (set_pc i (ICodeWritten c) (upd_vis n (fun v => v <| code := c |>) s))
   | ELookupMid k, IDeps todo =>
       check memN k todo;
-      Some (set_thread th (get_thread s th <| last_reg := None |>) s)
+      check (match lk (get_thread s th) with LDone1 k1 None => N.eqb k1 k | _ => false end);
+      Some (set_thread th (get_thread s th <| lk := LMid k |>) s)
   | ERestartDecision b, ICodeWritten c =>
       check Bool.eqb b (restart_ok (f_stopped x) (pol (cf x)) c (maxr (cf x)) (restarts (vis_of s n)));
       Some (upd_inst i (fun x => x <| f_stopped := false |>
@@ -565,9 +579,10 @@ Definition step_own (s : sys) (th : tid) (e : event) : option sys :=
       check Z.eqb c (match c' with Some l => l | None => code (vis_of s n) end);
       Some (set_pc i (IDoneReg c) s)
   | EInstDone, IDoneReg c =>
+      check d_added x;
       Some (set_pc i (IProjEnd c false) s)
   | EExitTrigger c, IProjEnd c' sk =>
-      check Z.eqb c c' && is_trigger (cf x) c' sk;
+      check Z.eqb c c' && is_trigger (cf x) c' sk && d_added x;
       (* exitCodeOnce.Do: only the first trigger stores its code *)
       Some (set_thread th (get_thread s th <| pend := Some (RCodeOnce c) |>) (set_pc i (ITriggered c) s))
   | EExitCodeSet c, ITriggered c' =>
@@ -575,7 +590,7 @@ Definition step_own (s : sys) (th : tid) (e : event) : option sys :=
       check (match dpc (get_thread s th) with DNone => true | _ => false end);
       Some (set_pc i ILeaving s)
   | EInstExit, IProjEnd c sk =>
-      check negb (is_trigger (cf x) c sk);
+      check negb (is_trigger (cf x) c sk) && d_added x;
       (* waitGroup.Done() directly follows the TP *)
       Some (set_thread th (get_thread s th <| pend := Some RWgDone |>) (set_pc i IWgDone s))
   | EInstExit, ILeaving => Some (set_thread th (get_thread s th <| pend := Some RWgDone |>) (set_pc i IWgDone s))
